@@ -66,9 +66,91 @@ def b_decode_all(data):
     return {"items": [b_canon(i) for i in items], "rest": list(rest or b"")}
 
 
+# ---- EDN / JSON values ------------------------------------------------------------------
+def e_build(j):
+    from basilisp.lang import keyword as kw, symbol as sym, vector as vec, map as lmap, set as lset, list as llist
+    if j is None:
+        return None
+    if "b" in j:
+        return bool(j["b"])
+    if "i" in j:
+        return int(j["i"])
+    if "f" in j:
+        return float(j["f"])
+    if "s" in j:
+        return j["s"]
+    if "kw" in j:
+        return kw.keyword(j["kw"][1], ns=j["kw"][0])
+    if "sym" in j:
+        return sym.symbol(j["sym"][1], ns=j["sym"][0])
+    if "v" in j:
+        return vec.vector([e_build(e) for e in j["v"]])
+    if "l" in j:
+        return llist.list([e_build(e) for e in j["l"]])
+    if "set" in j:
+        return lset.set([e_build(e) for e in j["set"]])
+    if "m" in j:
+        return lmap.map({e_build(k): e_build(v) for k, v in j["m"]})
+    raise ValueError(j)
+
+
+def _sk(j):
+    import json
+    return json.dumps(j, sort_keys=True)
+
+
+def e_canon(x):
+    from basilisp.lang import keyword as kw, symbol as sym
+    from basilisp.lang.interfaces import IPersistentMap, IPersistentVector, IPersistentSet, IPersistentList, ISeq
+    if x is None:
+        return None
+    if isinstance(x, bool):
+        return {"b": x}
+    if isinstance(x, int):
+        return {"i": x}
+    if isinstance(x, float):
+        return {"f": repr(x)}
+    if isinstance(x, str):
+        return {"s": x}
+    if isinstance(x, kw.Keyword):
+        return {"kw": [x.ns, x.name]}
+    if isinstance(x, sym.Symbol):
+        return {"sym": [x.ns, x.name]}
+    if isinstance(x, IPersistentVector):
+        return {"v": [e_canon(e) for e in x]}
+    if isinstance(x, IPersistentMap):
+        return {"m": sorted(([e_canon(k), e_canon(v)] for k, v in x.items()), key=_sk)}
+    if isinstance(x, IPersistentSet):
+        return {"set": sorted((e_canon(e) for e in x), key=_sk)}
+    if isinstance(x, (IPersistentList, ISeq)):
+        return {"l": [e_canon(e) for e in x]}
+    return {"other": type(x).__name__}
+
+
+def _read(rd, text):
+    from basilisp.lang import reader as lreader
+    from basilisp.lang.exception import ExceptionInfo
+    try:
+        v = (_f["ednr"] if rd == 0 else _f["lispr"])(text)
+    except Exception as e:
+        own = ExceptionInfo if rd == 0 else lreader.SyntaxError
+        return {"rerr": 1 if isinstance(e, own) else 2, "cls": type(e).__name__}
+    return {"back": e_canon(v)}
+
+
 def run(case):
     k = case["k"]
     try:
+        if k == "edn":
+            text = _f["ednw"](e_build(case["v"]))
+            r = _read(case["rd"], text)
+            r["text"] = text
+            return r
+        if k == "ednt":
+            return _read(case["rd"], case["text"])
+        if k == "json":
+            text = _f["jsonw"](e_build(case["v"]))
+            return {"jback": e_canon(_f["jsonr"](text)), "text": text}
         if k == "bstream":
             data = b"".join(_f["benc"](b_build(m)) for m in case["msgs"])
             cuts = []
